@@ -12,7 +12,7 @@ Lemma tp_of_parts_chain P R u : c14_rep P R ->
   0 <= u_hour u <= 23 -> 0 <= u_min u <= 59 -> 0 <= u_sec u <= 59 -> 0 <= utc_fns u <= 999999999 ->
   let D := days_from_civil (u_year u) (u_mo u) (u_day u) in
   let sec := u_hour u * 3600 + u_min u * 60 + u_sec u in
-  exists G : bool, (G = true -> 9223372036854775807 - 719468 < D) /\ (G = false -> D <= 9223372036854775807) /\
+  exists G : bool, (G = true -> 9223372036854775807 < D) /\ (G = false -> D <= 9223372036854775807) /\
     tp_of_parts P R u =
     if (D <? -9223372036854775808) || G then Err OutOfRange
     else tp_chain P R D sec (round_half_even (utc_fns u) (tick_ns P)).
@@ -79,13 +79,8 @@ Definition tp_expected (P : prec) (R : ity) (f : tp_fields) : outcome Z :=
   | None => Err OutOfRange
   end.
 
-(* the open class (parse half of K35): dates of the last 719468 days of time_point<days,int64>, which the era
-   guard may reject although they are representable *)
 Definition is_days (P : prec) : bool := match P with Pd => true | _ => false end.
 Definition is_i64 (R : ity) : bool := match R with I64 => true | _ => false end.
-Definition k35_parse (P : prec) (R : ity) (f : tp_fields) : bool :=
-  let x := tf_datetime f in let D := days_of_civil (dt_y x, dt_mo x, dt_d x) in
-  is_days P && is_i64 R && (9223372036854775807 - 719468 <? D) && (D <=? 9223372036854775807).
 
 Lemma value_count P R D sec fns : 
   tp_value P R D sec (round_half_even fns (tick_ns P)) =
@@ -124,13 +119,13 @@ Qed.
 Lemma tp_of_parts_low P R u : u_year u < -9223372036854775408 -> tp_of_parts P R u = Err OutOfRange.
 Proof. intros H. rewrite tp_of_parts_unfold. apply date_steps_low. exact H. Qed.
 
-Theorem tp_classify_grammar P R f : c14_rep P R -> tf_wf f -> k35_parse P R f = false ->
+Theorem tp_classify_grammar P R f : c14_rep P R -> tf_wf f ->
   tp_parse P R (tf_render f) = tp_expected P R f.
 Proof.
-  intros HR Hwf Hk. pose proof Hwf as [Hlex Hval].
+  intros HR Hwf. pose proof Hwf as [Hlex Hval].
   destruct Hval as (Hdate & Hh & Hmi & Hs & Hns).
   unfold tp_parse. rewrite (parse_grammar f Hwf).
-  unfold tp_expected, tf_secs, k35_parse in *. cbv zeta in *.
+  unfold tp_expected, tf_secs in *. cbv zeta in *.
   cbn [tf_datetime dt_y dt_mo dt_d dt_h dt_mi dt_s dt_ns] in *.
   set (y := tf_yearv f) in *. set (mo := dec_value (tf_mo f)) in *. set (d := dec_value (tf_d f)) in *.
   set (h := dec_value (tf_h f)) in *. set (mi := dec_value (tf_mi f)) in *. set (s := dec_value (tf_s f)) in *.
@@ -160,11 +155,7 @@ Proof.
       destruct (Z.ltb_spec D (-9223372036854775808)) as [Hdl|Hdl]; cbn [orb].
       * symmetry. apply value_oor; try assumption. left. exact Hdl.
       * destruct G eqn:EG.
-        -- specialize (HG eq_refl). symmetry. apply value_oor; try assumption.
-           destruct (Z.leb_spec D 9223372036854775807) as [Hle|Hgt]; [|right; left; exact Hgt].
-           right. right. split; [exact HG|].
-           destruct (is_days P && is_i64 R) eqn:Epr; [|reflexivity].
-           cbn [andb] in Hk. exfalso. lia.
+        -- specialize (HG eq_refl). symmetry. apply value_oor; try assumption. right. left. exact HG.
         -- specialize (HG' eq_refl). apply tp_chain_value; try assumption. lia.
   - symmetry. apply value_oor; try assumption.
     apply Bool.not_true_iff_false in Efy. rewrite fits_I64 in Efy. lia.
